@@ -22,6 +22,7 @@
  * usage:
  *   drv_calfile hist SEED FROM TO [MAXDIM]
  *   drv_calfile legacy V2FILE REFTABLE FROM TO
+ *   drv_calfile legacyw SEED FROM TO	same content in current and legacy layouts
  *   drv_calfile version FROM TO
  * env: VT_TRACE, VT_TMP
  */
@@ -426,6 +427,11 @@ typedef struct hist {
     int maxdim;
     int fp, dp;			/* harness's record: -1 = default */
     int gen_fail;
+    int legacy;			/* 0: load what vnacal_save wrote; 1: load the
+				 * harness's "#VNACAL 2.0" rendering of it;
+				 * 2: load it under a "#VNACAL 3.0" first line */
+    int only_e12;		/* generate E12 calibrations only (format 2.0
+				 * knows nothing else) */
 } hist_t;
 
 static void ev_setprec(hist_t *h, int which, int p)
@@ -463,7 +469,7 @@ static int pick_prec(vt_rng_t *rng)
 /* solve a fresh calibration and add it under the given name */
 static void ev_add(hist_t *h, int name_sid, int tindex, int dindex)
 {
-    vnacal_type_t type = cf_types[tindex % 8];
+    vnacal_type_t type = h->only_e12 ? VNACAL_E12 : cf_types[tindex % 8];
     int rows, cols, nf, g, rv, e, ci;
     cf_model_t model;
     const char *why;
@@ -583,6 +589,75 @@ static void put_like(const char *key, const int *v, int n)
     vt_put("]");
 }
 
+static void copy_with_header(const char *src, const char *dst,
+	const char *header);
+
+/*
+ * write_v2: the harness's own writer of the pre-release "#VNACAL 2.0"
+ * layout, derived from src/tests/compat-V2.vnacal: a top-level "sets"
+ * sequence; per set name, rows, columns, frequencies, z0 and "data", a
+ * sequence of {f, e} where e is a rows x columns matrix whose cells are the
+ * triples [el, er, em] of the E12 terms of that cell.  The numbers are those
+ * the harness's reader found in the current-format file (written in C99
+ * hexadecimal notation: no further rounding).  Returns 0 on success.
+ */
+static int write_v2(const char *path, vnacal_t *vcp, const rd_file_t *rf)
+{
+    FILE *fp = fopen(path, "w");
+    int end = LIB(vnacal_get_calibration_end(vcp));
+    int k = 0;
+
+    if (fp == NULL)
+	return -1;
+    fprintf(fp, "#VNACAL 2.0\n%%YAML 1.1\n---\nsets:\n");
+    for (int ci = 0; ci < end; ++ci) {
+	const char *name = LIB(vnacal_get_name(vcp, ci));
+	int rows, cols, nf;
+	double complex z0;
+	const rd_cal_t *rc;
+
+	if (name == NULL)
+	    continue;
+	if (k >= rf->ncal) {
+	    fclose(fp);
+	    return -1;
+	}
+	rc = &rf->cal[k++];
+	rows = LIB(vnacal_get_rows(vcp, ci));
+	cols = LIB(vnacal_get_columns(vcp, ci));
+	nf = LIB(vnacal_get_frequencies(vcp, ci));
+	z0 = LIB(vnacal_get_z0(vcp, ci));
+	if (LIB(vnacal_get_type(vcp, ci)) != VNACAL_E12 || rc->nf != nf ||
+		rc->nnum != 3 * rows * cols * nf) {
+	    fclose(fp);
+	    return -1;
+	}
+	fprintf(fp, "- name: \"%s\"\n  rows: %d\n  columns: %d\n"
+		"  frequencies: %d\n  z0: \"%+a %+aj\"\n  data:\n", name, rows,
+		cols, nf, creal(z0), cimag(z0));
+	for (int f = 0; f < nf; ++f) {
+	    const double complex *el = &rc->num[f * 3 * rows * cols];
+	    const double complex *er = el + rows * cols;
+	    const double complex *em = er + rows * cols;
+
+	    fprintf(fp, "  - f: %a\n    e:\n", rc->f[f]);
+	    for (int r = 0; r < rows; ++r) {
+		for (int c = 0; c < cols; ++c) {
+		    int cell = r * cols + c;
+
+		    fprintf(fp, "    %s - [\"%+a %+aj\", \"%+a %+aj\", "
+			    "\"%+a %+aj\"]\n", c == 0 ? "-" : " ",
+			    creal(el[cell]), cimag(el[cell]),
+			    creal(er[cell]), cimag(er[cell]),
+			    creal(em[cell]), cimag(em[cell]));
+		}
+	    }
+	}
+    }
+    fprintf(fp, "...\n");
+    return fclose(fp);
+}
+
 /*
  * save, load and compare.  Returns the loaded container (or NULL).
  */
@@ -607,9 +682,25 @@ static vnacal_t *ev_save_load(hist_t *h)
     if (rv != 0)
 	return NULL;
 
-    vt_cb_reset();
-    v2 = LIB(vnacal_load(file_main, vt_errfn, NULL));
-    e = errno;
+    {
+	const char *toload = file_main;
+
+	if (h->legacy == 1) {
+	    /* the same content in the old layout, by the harness's writer */
+	    rd_read(file_main, &rd_m);
+	    if (!rd_m.ok || write_v2(file_tmp, h->vcp, &rd_m) != 0) {
+		fprintf(stderr, "write_v2 failed\n");
+		exit(3);
+	    }
+	    toload = file_tmp;
+	} else if (h->legacy == 2) {
+	    copy_with_header(file_main, file_tmp, "#VNACAL 3.0");
+	    toload = file_tmp;
+	}
+	vt_cb_reset();
+	v2 = LIB(vnacal_load(toload, vt_errfn, NULL));
+	e = errno;
+    }
     if (v2 == NULL) {
 	vt_put("{\"e\":\"Load\",\"ok\":0,\"err\":\"%s\",", vt_errname(e));
 	cf_put_cb();
@@ -654,7 +745,9 @@ static vnacal_t *ev_save_load(hist_t *h)
 	if (LIB(vnacal_get_name(h->vcp, ci)) != NULL)
 	    live_ci[nlive++] = ci;
     }
-    vt_put("{\"e\":\"Load\",\"ok\":1,\"err\":\"%s\",", vt_errname(e));
+    vt_put("{\"e\":\"Load\",\"via\":\"%s\",\"ok\":1,\"err\":\"%s\",",
+	    h->legacy == 1 ? "v2-writer" : h->legacy == 2 ? "v3-header" :
+	    "current", vt_errname(e));
     cf_put_cb();
     vt_put(",\"fp\":%d,\"dp\":%d", fp < 0 ? 0 : fp, dp < 0 ? 0 : dp);
     vt_put(",\"fhex\":%d,\"dhex\":%d", rd_m.ok && rd_m.ncal > 0 ? rd_m.fhex : -1,
@@ -1179,6 +1272,58 @@ static void run_legacy(const char *v2file, const char *reftable, long c)
     end_case(live0);
 }
 
+/*
+ * legacyw SEED FROM TO: the same calibrations once in the current format and
+ * once in a legacy format (cases 3k, 3k+1: "#VNACAL 2.0" layout written by
+ * write_v2, E12 of all dimensions 1x1 .. 3x3, 1..3 calibrations; cases 3k+2:
+ * "#VNACAL 3.0" first line, all types): the ordinary Save / Load events, so
+ * CalFileTrace demands Load = Compact(saved container) with equal terms,
+ * types, dimensions, frequencies, z0 and agreeing vnacal_apply_m.
+ */
+static void run_legacyw(uint64_t seed, long c)
+{
+    static const int plain_names[] = { 3, 1, 2, 4 };
+    hist_t h;
+    long live0 = vt_alloc_live;
+    int ncal = 1 + (int)((c / 3) % 3);
+    vnacal_t *v2;
+
+    memset(&h, 0, sizeof(h));
+    vt_seed(&h.rng, seed * 1000003ull + 77u + (uint64_t)c);
+    h.maxdim = 3;
+    h.fp = h.dp = -1;
+    h.legacy = c % 3 == 2 ? 2 : 1;
+    h.only_e12 = h.legacy == 1;
+    ngens = 0;
+    cf_extra_reset();
+    cf_pairs = 0;
+    vt_put("{\"e\":\"Reset\",\"case\":\"legacyw:%llu:%ld\"}",
+	    (unsigned long long)seed, c);
+    vt_end_line();
+    vt_cb_reset();
+    h.vcp = LIB(vnacal_create(vt_errfn, NULL));
+    if (h.vcp == NULL)
+	exit(3);
+    vt_put("{\"e\":\"Create\",\"obs\":");
+    put_container(h.vcp);
+    vt_put("}");
+    vt_end_line();
+    for (int i = 0; i < ncal && h.gen_fail == 0; ++i)
+	ev_add(&h, plain_names[i], (int)(c + i), (int)(c / 9 + 2 * i + c));
+    if (h.gen_fail == 0) {
+	/* a hole in the slot vector now and then */
+	if (ncal >= 2 && c % 4 == 1)
+	    ev_delete(&h, 0);
+	ev_setprec(&h, 'f', prec_table[(c * 7 + 3) % N_PREC]);
+	ev_setprec(&h, 'd', prec_table[(c * 5 + 11) % N_PREC]);
+	v2 = ev_save_load(&h);
+	if (v2 != NULL)
+	    LIBV(vnacal_free(v2));
+    }
+    LIBV(vnacal_free(h.vcp));
+    end_case(live0);
+}
+
 int main(int argc, char **argv)
 {
     const char *tp = getenv("VT_TRACE");
@@ -1209,6 +1354,14 @@ int main(int argc, char **argv)
 
 	for (long c = from; c < to; ++c)
 	    run_legacy(argv[2], argv[3], c);
+	return 0;
+    }
+    if (argc >= 5 && strcmp(argv[1], "legacyw") == 0) {
+	uint64_t seed = strtoull(argv[2], NULL, 10);
+	long from = atol(argv[3]), to = atol(argv[4]);
+
+	for (long c = from; c < to; ++c)
+	    run_legacyw(seed, c);
 	return 0;
     }
     if (argc >= 2 && strcmp(argv[1], "count-legacy") == 0) {
